@@ -17,7 +17,8 @@ ID = "C20"
 LEVEL = "exploration"
 RULE = (
     "cases are (x, err) pairs: (hyp) Hypothesis floats, sign x mantissa in "
-    "[1,10) x exponent in -300..300 (and x=0), err=|x|*10^U(-12,12) clamped "
+    "[1,10) x exponent in -300..300 (and x=+-0 with any positive error down "
+    "to 5e-324), err=|x|*10^U(-12,12) clamped "
     "to [1e-300, largest finite double]; (lattice) itertools.product of err "
     "mantissas around every 2-s.f. rounding boundary (k/10+0.05 +- "
     "{0,1e-9,1e-6,1e-3}), x mantissas around 1 and 10, relative exponent "
@@ -32,8 +33,9 @@ RULE = (
     "construction)."
 )
 ASSUMPTIONS = [
-    "err >= 1e-300 (sub-normal errors have fewer than two significant "
-    "digits); upwards every finite double is generated",
+    "for x != 0: err >= 1e-300 (the ratio bounds of the property keep it "
+    "normal); for x == 0 every positive double, sub-normal ones included; "
+    "upwards every finite double",
     "ties (exactly half a unit) are accepted either way",
     "the reader's convention: bracketed digits are the uncertainty in the "
     "last shown digits, times the shown power of ten",
@@ -95,8 +97,11 @@ def _mant():
 @st.composite
 def strategy(draw):
     if draw(st.integers(0, 19)) == 0:
-        x = 0.0
-        ee = draw(st.integers(-300, 299))
+        # an exact zero goes with ANY error, down to the smallest double
+        x = draw(st.sampled_from([0.0, -0.0]))
+        ee = draw(st.integers(-323, 308))
+        err = min(max(draw(_mant()) * 10.0 ** ee, 5e-324), FMAX)
+        return {"x": x, "err": err}
     else:
         xe = draw(st.one_of(st.integers(-300, 299), st.integers(-4, 4)))
         x = draw(_mant()) * 10.0 ** xe
@@ -155,6 +160,9 @@ def lattice(tier, seed):
                "err": min(float(f"{em}e{ee}"), FMAX)}
     for em, ee in itertools.product(ems, range(-300, 300, 7)):
         yield {"x": 0.0, "err": float(f"{em}e{ee}")}
+    # an exact zero with sub-normal errors (every one of the smallest)
+    for k in list(range(1, 120)) + [2 ** j for j in range(7, 52, 3)]:
+        yield {"x": 0.0, "err": k * 5e-324}
 
 
 # ------------------------------------------------------------------- atheris
